@@ -373,16 +373,8 @@ def r3_commit(ctx, cfg):
     ok = set(base_calls) <= allowed and base_calls.count("transactions::RepLog::commit") == 1
     ctx.ob(R, key, "e:base-handed-only-to-new/action/commit", ok,
            "`base` reaches %s" % sorted(set(base_calls) - allowed), fn=f, sample=str(sorted(set(base_calls))))
-    mut_refs = 0
-    for bid, i, st in f.stmts():
-        rv = st.get("rv", {})
-        if st["k"] == "assign" and rv.get("k") == "ref" and rv["mut"] and rv["place"]["l"] == (f.arg_index("base") or 1):
-            mut_refs += 1
-            ok = cfgf.dominates(cfgf.after_call_node(pb), bid) or bid == cb
-            ctx.ob(R, key, "e:mutable-reborrow-of-base-only-for-commit", ok and bid == cb,
-                   "`&mut *base` taken outside the commit call", fn=f, line=st["line"], sample="&mut *base in commit block")
-    ctx.ob(R, key, "e:one-mutable-reborrow", mut_refs == 1, "expected one `&mut *base`, found %d" % mut_refs, fn=f,
-           sample="1")
+    # (how often and where `&mut *base` is re-borrowed is not a property of the behaviour - a closure that captures `base` for the
+    # commit re-borrows it once more; what matters is who receives it, decided above)
     # (f) the cache holds the base by shared reference
     adt = F.adts.get("transactions::StorageTransaction")
     ok = False
